@@ -172,6 +172,19 @@ class SDict(dict):
             else:
                 self.s.log('rset', w, self.name, k, v)
 
+    def update(self, *a, **k):
+        """ one manager request writing several items: one scheduling point, one event per
+        item (a bulk rewrite of a per-item loop still corresponds to the model) """
+        self.s.pause()
+        w = self.s.wid()
+        for key, v in dict(*a, **k).items():
+            dict.__setitem__(self, key, v)
+            if w is not None:
+                if self.name == 'data':
+                    self.s.log('dset', w, key, v)
+                else:
+                    self.s.log('rset', w, self.name, key, v)
+
     def __contains__(self, k):
         self.s.pause()
         w = self.s.wid()
